@@ -129,7 +129,6 @@ pub struct Master {
     /// (first, second) -> value; names starting with `public.kern` are groups
     /// (serialised as a list of entries: JSON maps cannot have tuple keys)
     #[serde(with = "pair_map")]
-    #[serde(with = "kerning_serde")]
     pub kerning: BTreeMap<(String, String), f64>,
     pub groups: BTreeMap<String, Vec<String>>,
 }
@@ -757,16 +756,3 @@ mod pair_map {
     }
 }
 
-/// JSON cannot key a map by a tuple: (de)serialise the kerning map as a list of entries.
-mod kerning_serde {
-    use serde::{Deserialize, Deserializer, Serialize, Serializer};
-    use std::collections::BTreeMap;
-    pub fn serialize<S: Serializer>(m: &BTreeMap<(String, String), f64>, s: S) -> Result<S::Ok, S::Error> {
-        let v: Vec<(&String, &String, f64)> = m.iter().map(|((a, b), v)| (a, b, *v)).collect();
-        v.serialize(s)
-    }
-    pub fn deserialize<'de, D: Deserializer<'de>>(d: D) -> Result<BTreeMap<(String, String), f64>, D::Error> {
-        let v: Vec<(String, String, f64)> = Vec::deserialize(d)?;
-        Ok(v.into_iter().map(|(a, b, v)| ((a, b), v)).collect())
-    }
-}
